@@ -31,27 +31,38 @@ theorem intText_natCast (n : Nat) : intText (n : Int) = natDigits n := by
 theorem number_size (b : Bytes) : Cxx.number (Cxx.size b) = natDigits b.length := by
   simp [Cxx.number, Cxx.size, intText_natCast]
 
-theorem foldl_headerLines (m : HeaderMap) (acc : Bytes) :
-    m.foldl (fun header e => (((header ++ e.1) ++ ([58, 32] : Bytes)) ++ e.2) ++ ([13, 10] : Bytes)) acc
-      = acc ++ Sock.headerLines m := by
+theorem foldl_append_each (f : Bytes × Bytes → Bytes) (m : HeaderMap) (acc : Bytes) :
+    m.foldl (fun a e => a ++ f e) acc = acc ++ m.flatMap f := by
   induction m generalizing acc with
-  | nil => simp [Sock.headerLines]
+  | nil => simp
+  | cons e m ih => simp [List.foldl_cons, ih, List.flatMap_cons, List.append_assoc]
+
+theorem headerLines_flatMap (m : HeaderMap) :
+    Sock.headerLines m = m.flatMap (fun e => e.1 ++ (58 :: 32 :: (e.2 ++ [13, 10]))) := by
+  induction m with
+  | nil => rfl
   | cons e m ih =>
     obtain ⟨k, v⟩ := e
-    simp only [List.foldl_cons, ih, Sock.headerLines, COLON, SP, CRLF]
-    simp [List.append_assoc]
+    simp [Sock.headerLines, ih, List.flatMap_cons, COLON, SP, CRLF, List.append_assoc]
+
+theorem count_eq_zero_iff (n : Bytes) (m : HeaderMap) : HeaderMap.count n m = 0 ↔ HeaderMap.contains n m = false := by
+  simp only [HeaderMap.count, HeaderMap.values, HeaderMap.contains, List.length_map, List.length_eq_zero_iff,
+    List.filter_eq_nil_iff, List.any_eq_false]
 
 theorem setHeader_eq (s : Sock) (n v : Bytes) (r : Bool) :
     Socket_setHeader s n v r = Sock.setHeader s n v r := by
   unfold Socket_setHeader Sock.setHeader
+  unfold_gen_helpers
+  have hc := count_eq_zero_iff n s.respHeaders
   grind
 
 theorem lit_http : lit ['H','T','T','P','/','1','.','0',' '] = ([72, 84, 84, 80, 47, 49, 46, 48, 32] : Bytes) := by decide
 
 theorem writeHeaders_eq (s : Sock) : Socket_writeHeaders s = Sock.writeHeaders s := by
   unfold Socket_writeHeaders Sock.writeHeaders Sock.headBytes
-  simp only [foldl_headerLines]
-  simp only [Cxx.tcpWrite, Cxx.size, Cxx.number, lit_http, CRLF, SP, List.nil_append, List.append_assoc]
+  unfold_gen_helpers
+  simp only [headerLines_flatMap, Cxx.tcpWrite, Cxx.size, Cxx.number, lit_http, CRLF, SP, List.append_assoc, List.cons_append, List.nil_append]
+  simp only [foldl_append_each, List.append_assoc, List.cons_append, List.nil_append]
 
 theorem take_min_length (l : Bytes) (n : Nat) : l.take (min l.length n) = l.take n := by
   by_cases h : n ≤ l.length
@@ -90,6 +101,7 @@ theorem readData_eq (s : Sock) (n : Nat) :
     let r := Socket_readData s (n : Int)
     (r.1, r.2.1) = Sock.readData s n ∧ r.2.2 = ((Sock.readData s n).2.length : Int) := by
   unfold Socket_readData Sock.readData
+  unfold_gen_helpers
   have hE : min (Cxx.size s.readBuffer) (n : Int) ≤ 0 → s.readBuffer.take n = [] := by
     intro hpos
     simp only [Cxx.size] at hpos
@@ -111,6 +123,7 @@ theorem setHeaders_eq (s : Sock) (h : HeaderMap) :
 theorem writeData_eq (s : Sock) (data : Bytes) :
     (Socket_writeData s data).1 = Sock.tcpWrite (if s.ws = .none then Sock.writeHeaders s else s) data := by
   unfold Socket_writeData
+  unfold_gen_helpers
   by_cases h : s.ws = .none <;> simp [h, writeHeaders_eq, Cxx.tcpWrite]
 
 /-- `QIODevice::write` on the Socket, through the translated `writeData`, is the model's `write` -/
@@ -126,18 +139,21 @@ theorem close_eq (s : Sock) : Socket_close s = Sock.close s := rfl
 theorem writeRedirect_eq (s : Sock) (path : Bytes) (permanent : Bool) :
     Socket_writeRedirect s path permanent = Sock.writeRedirect s path permanent := by
   unfold Socket_writeRedirect Sock.writeRedirect
+  unfold_gen_helpers
   simp only [setStatusCode_eq, setHeader_eq, writeHeaders_eq, close_eq]
   cases permanent <;> rfl
 
 theorem writeError_eq (env : Env) (app : App) (s : Sock) (c : Int) (r : Option Bytes) :
     Socket_writeError env app s c r = Sock.writeError env s c r := by
   unfold Socket_writeError Sock.writeError
+  unfold_gen_helpers
   simp only [setStatusCode_eq, setHeader_eq, writeHeaders_eq, close_eq, write_eq, number_size]
   rfl
 
 theorem writeJson_eq (s : Sock) (doc : Bytes) (c : Int) :
     Socket_writeJson s doc c = Sock.writeJson s doc c := by
   unfold Socket_writeJson Sock.writeJson
+  unfold_gen_helpers
   simp only [setStatusCode_eq, setHeader_eq, close_eq, write_eq, number_size]
   rfl
 
@@ -145,10 +161,12 @@ theorem writeJson_eq (s : Sock) (doc : Bytes) (c : Int) :
 
 theorem bytesAvailable_eq (s : Sock) : Socket_bytesAvailable s = (Sock.bytesAvailable s : Int) := by
   unfold Socket_bytesAvailable Sock.bytesAvailable
+  unfold_gen_helpers
   cases h : s.rs <;> simp [Cxx.rcode, Cxx.size, Cxx.qioBytesAvailable]
 
 theorem isHeadersParsed_eq (s : Sock) : Socket_isHeadersParsed s = (Sock.takeSnap s).parsed := by
   unfold Socket_isHeadersParsed Sock.takeSnap
+  unfold_gen_helpers
   cases h : s.rs <;> simp [Cxx.rcode]
 
 theorem contentLength_eq (s : Sock) : Socket_contentLength s = (Sock.takeSnap s).total := rfl
@@ -156,12 +174,14 @@ theorem contentLength_eq (s : Sock) : Socket_contentLength s = (Sock.takeSnap s)
 theorem onBytesWritten_eq (env : Env) (app : App) (s : Sock) (n : Int) :
     SocketPrivate_onBytesWritten env app s n = Sock.onBytesWritten env app s n := by
   unfold SocketPrivate_onBytesWritten Sock.onBytesWritten
+  unfold_gen_helpers
   simp only [Cxx.emitBw]
   grind
 
 theorem onReadChannelFinished_eq (env : Env) (app : App) (s : Sock) :
     SocketPrivate_onReadChannelFinished env app s = Sock.onReadChannelFinished env app s := by
   unfold SocketPrivate_onReadChannelFinished Sock.onReadChannelFinished
+  unfold_gen_helpers
   simp only [Cxx.emitRcf]
   grind
 
@@ -193,6 +213,7 @@ theorem readHeaders_eq (env : Env) (app : App) (s : Sock)
       Parser.parseRequestHeaders head s.reqHeaders = some rh → env.url rh.rawPath ≠ none) :
     SocketPrivate_readHeaders env app s = Sock.readHeaders env app s := by
   unfold SocketPrivate_readHeaders Sock.readHeaders
+  unfold_gen_helpers
   simp only [crlf2_lit, cl_lit]
   cases hb : breakOn CRLF2 s.readBuffer with
   | none => simp [indexOf_none hb]
@@ -213,6 +234,7 @@ theorem readHeaders_eq (env : Env) (app : App) (s : Sock)
 theorem readDataSlot_eq (env : Env) (app : App) (s : Sock) :
     SocketPrivate_readData env app s = Sock.readDataSlot env app s := by
   unfold SocketPrivate_readData Sock.readDataSlot
+  unfold_gen_helpers
   simp only [Cxx.emitRr, Cxx.emitRcf, Cxx.size, Cxx.truncate]
   grind
 
@@ -236,6 +258,7 @@ theorem with_readBuffer_self (s : Sock) : ({ s with readBuffer := s.readBuffer }
 theorem onReadyRead_eq (env : Env) (app : App) (s : Sock) (hurl : NoBadUrl env (afterRead s)) :
     SocketPrivate_onReadyRead env app s = Sock.onReadyRead env app s := by
   unfold SocketPrivate_onReadyRead Sock.onReadyRead
+  unfold_gen_helpers
   have hrh := readHeaders_eq env app (afterRead s) hurl
   rw [afterRead_eq] at hrh
   simp only [readDataSlot_eq]
